@@ -27,6 +27,13 @@ def gen(rng, tier):
     for _ in range(300 if quick else 4000):
         sigma = rng.choice(['a', 'ab', 'abc', 'ab', ''])
         ns.append(G.random_nfa(rng, rng.randint(1, 6), sigma, rng.choice(['_', '', 'e']), peps=rng.choice([0.0, 0.25, 0.5])))
+    # state names that are substrings / prefixes of each other, contain separators, or sort differently as text and as numbers
+    for _ in range(150 if quick else 2500):
+        k = rng.randint(2, 6)
+        ns.append(G.random_nfa(rng, k, rng.choice(['a', 'ab']), rng.choice(['_', '']), names=G.tricky_names(rng, k), peps=rng.choice([0.0, 0.3])))
+    # long epsilon chains: the names of the subsets are long and share long prefixes
+    for _ in range(25 if quick else 400):
+        ns.append(G.chain_nfa(rng, sigma=rng.choice(['ab', 'a']), eps=rng.choice(['_', ''])))
     cases = [{'N': n} for n in ns]
     # the same NFA object is modified in place (transitions added / removed, accepting set changed) and determinised again
     for _ in range(120 if quick else 1500):
